@@ -74,6 +74,8 @@ def _claims(ctx):
     ctx.ob("R-1", "claim-key-type", md.label_decoder == "<%s as common::AsCborValue>::from_cbor_value" % CLAIM_KEY_TYPE,
            "claim keys are normalised by %s (registered, private-use or text)" % CLAIM_KEY_TYPE, where=fn.span, detail={"found": md.label_decoder})
     by_label = check_dispatch(ctx, md, CLAIMS, "cwt::ClaimsSet")
+    from rules import extractors as _ex
+    _ex.check_extractors(ctx.under("R-1", "extractors"), "R-1")
     from rules import c17 as _c17
     _c17.check_tables(ctx.under("R-4", "registry"), only={"iana::CwtClaimName"})
     # accepted "iff ..." is stated for CBOR items reaching the decoder through the byte-level API as well: the one parser entry
